@@ -1,6 +1,7 @@
 package main
 
 import (
+	"unicode"
 	"bytes"
 	"encoding/hex"
 	"fmt"
@@ -79,6 +80,16 @@ func randCaseStr(c *runCtx, s string) string {
 
 func runC12(c *runCtx) {
 	r := c.rng
+	var htmlTags []string
+	if sg, _, _ := parseMagic("/repo"); sg["HTML"] != nil {
+		for _, l := range sg["HTML"].sigs {
+			u := strings.ToUpper(string(l))
+			if u == "<SCRIPT" || u == "<STYLE" || u == "<TITLE" || u == "<IFRAME" || strings.ContainsAny(u, " -") {
+				continue
+			}
+			htmlTags = append(htmlTags, string(l))
+		}
+	}
 	n := 1500
 	nx := 500
 	if c.tier == "thorough" {
@@ -95,7 +106,30 @@ func runC12(c *runCtx) {
 			// white space in front of the markup (every kind the markup detector skips)
 			sb.WriteString([]string{" ", "\n", "\t", "\r\n", "\x0c", " \t\n "}[r.Intn(6)])
 		}
-		sb.WriteString(starts[r.Intn(len(starts))])
+		if r.Intn(3) == 0 && len(htmlTags) > 0 {
+			// the first tag in upper, lower and alternating case: the tag names of the library's HTML signature list
+			// (those that do not open raw text), closed by '>' or followed by a blank
+			t := htmlTags[r.Intn(len(htmlTags))]
+			b := []byte(t)
+			switch r.Intn(3) {
+			case 0:
+				b = bytes.ToUpper(b)
+			case 1:
+				b = bytes.ToLower(b)
+			default:
+				for k := range b {
+					if k%2 == 0 {
+						b[k] = byte(unicode.ToUpper(rune(b[k])))
+					} else {
+						b[k] = byte(unicode.ToLower(rune(b[k])))
+					}
+				}
+			}
+			sb.Write(b)
+			sb.WriteString([]string{">", " id=x>", ">\n"}[r.Intn(3)])
+		} else {
+			sb.WriteString(starts[r.Intn(len(starts))])
+		}
 		for k := r.Intn(4); k > 0; k-- {
 			switch r.Intn(8) {
 			case 6: // the head is over before the declaration comes: the prescan does not care where a meta stands
@@ -146,7 +180,9 @@ func runC12(c *runCtx) {
 			if iq == "\"" {
 				oq = "'"
 			}
-			content := randCaseStr(c, "content") + sp() + "=" + sp() + oq + "text/html;" + sp() + randCaseStr(c, "charset") + sp() + "=" + sp() + iq + L + iq + oq
+			// what may follow the label inside the content attribute: nothing, a ';', a further parameter, a blank
+			after := []string{"", "", ";", "; x=y", " ;q=1", " "}[r.Intn(6)]
+			content := randCaseStr(c, "content") + sp() + "=" + sp() + oq + "text/html;" + sp() + randCaseStr(c, "charset") + sp() + "=" + sp() + iq + L + iq + after + oq
 			equiv := randCaseStr(c, "http-equiv") + "=" + []string{"\"Content-Type\"", "'content-type'", "CONTENT-TYPE"}[r.Intn(3)]
 			if r.Intn(2) == 0 {
 				sb.WriteString("<" + metaTag + sp1() + equiv + sp1() + content + sp() + ">")
